@@ -42,9 +42,9 @@ def run_mc(v, universe, invariants, nparts=8, timeout=3000):
     return res
 
 
-def exhaustive_part(v, universe, invariants, gens, owned, max_judge=400):
+def exhaustive_part(v, universe, invariants, gens, owned, max_judge=400, always_judge=0):
     res = run_mc(v, universe, invariants)
-    n, mism = rv.replay_all(res.univ, res.emits, gens)
+    n, mism = rv.replay_all(res.univ, res.emits, gens, sample_ok=always_judge)
     v.cov["traces_validated_against_impl"] += n
     for c in res.emits:
         v.count_case((universe, c["d"], json.dumps(c["K"]), json.dumps(c["mod"])), nontrivial=len(c["V"]) >= 2)
